@@ -228,6 +228,16 @@ pub fn run(a: &Args, out: &mut impl Write) {
         let d = ((r.next() as i64 >> 35) & !4095) as i64;
         entry(out, f, (((f as i64) & !4095) + d) as u64);
     }
+    // ---- macOS memory path (C17): parameters only -- the driver runs the translated functions
+    for (jit, func, remap, n) in [(0x1_0400_0000u64, 0x1_0000_0f40u64, 0x2_8000_0000u64, 20usize), (0x1_0400_4000, 0x1_0000_3ffc, 0x2_8000_4ffc, 8), (0x7_0000_0000, 0x1_0000_0000, 0x1_0000_0000, 20)] {
+        writeln!(out, "macflush {:x} {:x} {:x} {} | -", jit, func, remap, n).unwrap();
+    }
+    for _ in 0..(a.n / 50).max(4) {
+        let jit = (r.next() >> 20) & !0xfff;
+        let func = (r.next() >> 20) & !3;
+        let remap = ((r.next() >> 20) & !0xfff) | (func & 0xfff);
+        writeln!(out, "macflush {:x} {:x} {:x} {} | -", jit, func, remap, if r.chance(1, 2) { 20 } else { 8 }).unwrap();
+    }
     // ---- macOS long jump (pure)
     for &(pc, t) in &[(0x1_0000_0000u64, 0x1_0000_0004u64), (0x1_0000_0000, 0x1_0800_0000), (0x1_0000_0000, 0x1_07ff_fffc), (0x1_0800_0000, 0x1_0000_0000), (0x1_0800_0004, 0x1_0000_0000)] {
         longj(out, pc, t);
